@@ -236,7 +236,8 @@ def _shrink(args, extra, tier):
         d += 1
     if d == 0:
         return args
-    args = re.sub(r"--L (\d+)", lambda m: f"--L {max(2, int(m.group(1)) - d)}", args)
+    lo = 2 if "--moves" in extra else 3  # with L 2 several shapes no longer reach their second block (vacuous for growth)
+    args = re.sub(r"--L (\d+)", lambda m: f"--L {max(min(lo, int(m.group(1))), int(m.group(1)) - d)}", args)
     if "--moves" in extra:
         args = re.sub(r"--markers (\d+)", "--markers 1", args) + " --twin 0"
     return args
@@ -376,7 +377,7 @@ def stack_suite(tier, cfgs, extra="", fams=("member",), need=()):
             if q and cfg != cfgs[0]:
                 shapes = shapes[::2]
             for src, args, nd in shapes:
-                args = _shrink(args, extra, tier).replace("--twin 0", "--twin 0" if fam == "member" else "")
+                args = _shrink(args, extra, tier)  # (twin comparison off with moves: the twin snapshot belongs to one slot)
                 a = f"--src {src} {f} {args} --arena 1024 {extra}".strip()
                 if fam != "member":
                     nd = tuple(x for x in nd if x not in ("alloc_bad_size",))
